@@ -112,3 +112,62 @@ Proof.
   - eapply seps_cons; [exact E|exact Hlt|rewrite <- Hq by lia; exact E2|exact Hle|].
     apply IH. intros j Hj. apply Hq. lia.
 Qed.
+
+(* ---- committed failures inside the loop ------------------------------------------------------------ *)
+Definition cuts {A} (p : parser A) (i : input) : Prop := exists e j, p i = Cut e j.
+
+Section SepsCut.
+  Context {A Sp : Type}.
+  Variable p : parser A.
+  Variable sep : parser Sp.
+
+  (* starting at i (just after an element) the loop reads separator-element pairs and then an
+     element fails with commitment *)
+  Inductive seps_cut : input -> Prop :=
+  | sc_elem i x i1 : sep i = Ok x i1 -> length (rest i1) < length (rest i) -> cuts p i1 -> seps_cut i
+  | sc_next i x i1 a i2 :
+      sep i = Ok x i1 -> length (rest i1) < length (rest i) ->
+      p i1 = Ok a i2 -> length (rest i2) <= length (rest i1) -> seps_cut i2 -> seps_cut i.
+
+  Lemma separated_loop_cuts i : seps_cut i ->
+    forall fuel acc, length (rest i) < fuel -> exists e j, separated_loop fuel p sep acc i = Cut e j.
+  Proof.
+    induction 1 as [i x i1 E Hlt (e & j & F)|i x i1 a i2 E Hlt E2 Hle R IH]; intros fuel acc Hf;
+      (destruct fuel as [|fuel]; [lia|]); cbn [separated_loop]; rewrite E;
+      (destruct (Nat.eqb (length (rest i1)) (length (rest i))) eqn:Q; [apply Nat.eqb_eq in Q; lia|]).
+    - rewrite F. eauto.
+    - rewrite E2. apply IH. lia.
+  Qed.
+
+  Lemma separated0_cuts_first i : cuts p i -> cuts (separated0 p sep) i.
+  Proof. intros (e & j & F). unfold cuts, separated0. rewrite F. eauto. Qed.
+
+  Lemma separated0_cuts_loop i a i1 : p i = Ok a i1 -> seps_cut i1 -> cuts (separated0 p sep) i.
+  Proof. intros E R. unfold cuts, separated0. rewrite E. apply (separated_loop_cuts i1 R). lia. Qed.
+End SepsCut.
+
+(* propagation of committed failures through the sequencing combinators *)
+Lemma cuts_bind {A B} (p : parser A) (f : A -> parser B) i : cuts p i -> cuts (bind p f) i.
+Proof. intros (e & j & F). unfold cuts, bind. rewrite F. eauto. Qed.
+Lemma cuts_bind_ok {A B} (p : parser A) (f : A -> parser B) i a i' : p i = Ok a i' -> cuts (f a) i' -> cuts (bind p f) i.
+Proof. intros E (e & j & F). unfold cuts, bind. rewrite E, F. eauto. Qed.
+Lemma cuts_pmap {A B} (f : A -> B) (p : parser A) i : cuts p i -> cuts (pmap f p) i.
+Proof. intros (e & j & F). unfold cuts, pmap. rewrite F. eauto. Qed.
+Lemma cuts_cut_err {A} (p : parser A) i : cuts p i -> cuts (cut_err p) i.
+Proof. intros (e & j & F). unfold cuts, cut_err. rewrite F. eauto. Qed.
+Lemma cuts_cut_err_fails {A} (p : parser A) i : fails p i -> cuts (cut_err p) i.
+Proof. intros (e & j & F). unfold cuts, cut_err. rewrite F. eauto. Qed.
+Lemma cuts_context {A} (p : parser A) i : cuts p i -> cuts (context p) i.
+Proof. intros (e & j & F). unfold cuts, context. rewrite F. eauto. Qed.
+Lemma cuts_alt_l {A} (p q : parser A) i : cuts p i -> cuts (alt p q) i.
+Proof. intros (e & j & F). unfold cuts, alt. rewrite F. eauto. Qed.
+Lemma cuts_alt_r {A} (p q : parser A) i : fails p i -> cuts q i -> cuts (alt p q) i.
+Proof. intros (e & j & F) Hq. unfold cuts, alt. rewrite F. exact Hq. Qed.
+Lemma cuts_with_span {A} (p : parser A) i : cuts p i -> cuts (with_span p) i.
+Proof. intros (e & j & F). unfold cuts, with_span. rewrite F. eauto. Qed.
+Lemma cuts_try_map {A B} (f : A -> tm B) (p : parser A) i : cuts p i -> cuts (try_map f p) i.
+Proof. intros (e & j & F). unfold cuts, try_map. rewrite F. eauto. Qed.
+Lemma fails_try_map_err {A B} (f : A -> tm B) (p : parser A) i a i' c : p i = Ok a i' -> f a = TmErr c -> fails (try_map f p) i.
+Proof. intros E F. unfold fails, try_map. rewrite E, F. eauto. Qed.
+Lemma cuts_not_ok {A} (p : parser A) i a i' : cuts p i -> p i <> Ok a i'.
+Proof. intros (e & j & F). rewrite F. discriminate. Qed.
